@@ -577,6 +577,31 @@ def _coverage(repo, rep):
               "methods differ in state the name does not show",
               construct="stable-name-unbound", where=L.where(sn),
               detail=str(guards))
+    # ... and it is the name of the value itself: the only unwrapping in
+    # front of the naming is that of a Symbol (its .value); naming a part of
+    # the value instead (a partial by its .func, a bound method by its
+    # __func__) drops what tells two values apart
+    prm_ = sn.node.args.args[0].arg
+    rebinds = [n for n in ast.walk(sn.node)
+               if isinstance(n, (ast.Assign, ast.AugAssign, ast.AnnAssign,
+                                 ast.NamedExpr))
+               and any(isinstance(t, ast.Name) and t.id == prm_
+                       for t in ([n.target] if not isinstance(n, ast.Assign)
+                                 else n.targets))]
+
+    def _symbol_unwrap(n):
+        v = n.value
+        return isinstance(n, ast.Assign) and isinstance(v, ast.Call) and \
+            src(v.func) == "getattr" and len(v.args) == 3 and \
+            src(v.args[0]) == prm_ and src(v.args[2]) == prm_ and \
+            isinstance(v.args[1], ast.Constant) and v.args[1].value == "value"
+    bad_rb = [n for n in rebinds if not _symbol_unwrap(n)]
+    rep.check(not bad_rb, "R15.1", sn.qualname, "the value is named as a "
+              "whole: nothing but a Symbol is unwrapped before it is named "
+              "(%d re-binding(s) of %r)" % (len(rebinds), prm_),
+              construct="stable-name-whole-value", where=L.where(
+                  sn, bad_rb[0].lineno if bad_rb else None),
+              detail="; ".join(src(n)[:60] for n in bad_rb))
     # ... the *whole* file name: it is baked into the module (__filename,
     # reported in every error frame), so two files may share a module only
     # if they are the same file
